@@ -33,7 +33,7 @@ import (
 
 func TestMain(m *testing.M) {
 	document.SetGlobalLevel(document.LogLevelSilent)
-	kit.TestMain(m, 800, 9000)
+	kit.TestMain(m, 1600, 18000)
 }
 
 // Case is one generated input: the foreign package, the edits between open and save, the entry points.
